@@ -210,3 +210,85 @@ Definition obs (c : cfg) (o : option st) :=
   | None => None
   | Some s => Some (map snd (calls s), result s, all_done c s, errors s, flag s)
   end.
+
+(* ---------------------------------------------------------------- _process_args_dict on the caller's objects *)
+(* The argument dictionary belongs to the caller and is typically reused for several swarm-wide actions; two
+   URIs may even share one list object.  Here Python objects are modelled: a heap of list objects (object id =
+   position), the dictionary maps URIs to object ids, list elements are integers or member connections.
+       args = [scf]                  -- a new list object
+       if args_dict: args += args_dict[uri]      -- extends the NEW object in place, reads the caller's one
+   Tuples behave like lists here (only read). *)
+Inductive val := VInt (z : Z) | VScf (i : nat).
+Definition heap := list (list val).
+Definition pdict := list (Z * nat).
+
+Fixpoint plookup (d : pdict) (u : Z) : option nat :=
+  match d with
+  | [] => None
+  | (u', r) :: t => if u' =? u then Some r else plookup t u
+  end.
+
+Definition obj (h : heap) (r : nat) : list val := nth r h [].
+Definition set_obj (h : heap) (a : nat) (v : list val) : heap := firstn a h ++ v :: skipn (S a) h.
+
+(* Some (object id of the argument list handed to Thread/func, heap afterwards); None = KeyError *)
+Definition process_args_heap (h : heap) (ad : option pdict) (scf : nat) (u : Z) : option (nat * heap) :=
+  let a := List.length h in
+  let h1 := h ++ [[VScf scf]] in
+  match ad with
+  | None => Some (a, h1)
+  | Some [] => Some (a, h1)
+  | Some d => match plookup d u with
+              | None => None
+              | Some r => Some (a, set_obj h1 a (obj h1 a ++ obj h1 r))
+              end
+  end.
+
+(* one swarm-wide action: the calling thread prepares the arguments member by member, in dictionary order
+   (sequential, parallel_safe and therefore parallel / open_links all do) *)
+Fixpoint call_args (h : heap) (ad : option pdict) (ms : list (Z * nat)) : option (list nat * heap) :=
+  match ms with
+  | [] => Some ([], h)
+  | (u, i) :: r =>
+      match process_args_heap h ad i u with
+      | None => None
+      | Some (a, h') => match call_args h' ad r with
+                        | None => None
+                        | Some (ids, h'') => Some (a :: ids, h'')
+                        end
+      end
+  end.
+
+(* a history of swarm-wide actions on one swarm, each with some argument dictionary (possibly the same one) *)
+Fixpoint history (h : heap) (ms : list (Z * nat)) (calls : list (option pdict)) : option (list (list nat) * heap) :=
+  match calls with
+  | [] => Some ([], h)
+  | ad :: r =>
+      match call_args h ad ms with
+      | None => None
+      | Some (ids, h') => match history h' ms r with
+                          | None => None
+                          | Some (idss, h'') => Some (ids :: idss, h'')
+                          end
+      end
+  end.
+
+(* what the member with URI u must get after its connection: the caller's entry as it is in heap h *)
+Definition entry (h : heap) (ad : option pdict) (u : Z) : list val :=
+  match ad with
+  | None => []
+  | Some [] => []
+  | Some d => match plookup d u with Some r => obj h r | None => [] end
+  end.
+
+Definition wf_dict (h : heap) (ad : option pdict) : Prop :=
+  match ad with None => True | Some d => forall u r, In (u, r) d -> (r < List.length h)%nat end.
+
+(* observables for the correspondence: argument lists per call and member; the caller's objects afterwards *)
+Definition enc_val (v : val) : Z * Z := match v with VInt z => (0, z) | VScf i => (1, Z.of_nat i) end.
+Definition history_obs (h : heap) (ms : list (Z * nat)) (calls : list (option pdict)) :=
+  match history h ms calls with
+  | None => None
+  | Some (idss, h') => Some (map (map (fun a => map enc_val (obj h' a))) idss,
+                             map (map enc_val) (firstn (List.length h) h'))
+  end.
